@@ -649,11 +649,47 @@ package engine
 // ---- statements of the process language (used by predicates and transforms) ----
 // Typing is presumed (C12's checker accepted the code); what callers need is that the shared
 // environment map stays the same object and a value is always present.
+// A-ASTWF: statement nodes are of the seven known kinds and hold no nil pointer; A-TYPED: the
+// expressions were accepted by the checker (C12). Both are presumed, not checked at call sites.
+//@ pred stmtOk(x ast.AstProcessStatement) := (x is *ast.AstProcessSet || x is *ast.AstProcessIf || x is *ast.AstProcessLoop || x is ast.AstProcessBreak || x is ast.AstProcessContinue || x is *ast.AstProcessReturn || x is *ast.AstProcessDebug) && wfbox(x)
+//@ pred stOk(st ProcessState) := st.environment != nil && st.currentValue != nil
 //@ func executeStatement [C09 C05]
-//@   trusted
-//@   requires s != nil && state.environment != nil && state.currentValue != nil
+//@   requires s != nil && stOk(state)
+//@   presumes wf: stmtOk(*s)
 //@   modifies inferred
 //@   ensures result.environment == state.environment && result.currentValue != nil
+//@ func executeSet [C09]
+//@   requires s != nil && stOk(state)
+//@   presumes typed: wt(s.Expr, envDom(state), envVals(state))
+//@   modifies inferred
+//@   ensures result.environment == state.environment && result.currentValue != nil
+//@ func executeReturn [C09]
+//@   requires s != nil && stOk(state)
+//@   presumes typed: wt(s.Expr, envDom(state), envVals(state))
+//@   modifies inferred
+//@   ensures result.environment == state.environment && result.currentValue != nil && result.status == RETURNING
+//@ func executeDebug [C09]
+//@   requires s != nil && stOk(state)
+//@   presumes typed: wt(s.Expr, envDom(state), envVals(state))
+//@   modifies inferred
+//@   ensures result.environment == state.environment && result.currentValue != nil
+//@ func executeIf [C09]
+//@   requires s != nil && stOk(state)
+//@   presumes typed: wt(s.Condition, envDom(state), envVals(state))
+//@   modifies inferred
+//@   ensures result.environment == state.environment && result.currentValue != nil
+//@   loop 1 invariant expr_state.environment == state.environment && expr_state.currentValue != nil
+//@   loop 2 invariant expr_state.environment == state.environment && expr_state.currentValue != nil
+//@ func executeLoop [C09]
+//@   requires s != nil && stOk(state)
+//@   modifies inferred
+//@   ensures result.environment == state.environment && result.currentValue != nil
+//@   loop 1 invariant expr_state.environment == state.environment && expr_state.currentValue != nil
+//@   loop 2 invariant expr_state.environment == state.environment && expr_state.currentValue != nil
+//@ func executeBreak [C09]
+//@   ensures result.environment == state.environment && result.currentValue == state.currentValue && result.status == BREAKLOOP
+//@ func executeContinue [C09]
+//@   ensures result.environment == state.environment && result.currentValue == state.currentValue && result.status == CONTINUELOOP
 
 // ---- the scan loop (C03, C10: strictly advancing; C04: the window) ----
 //@ pred matchOk(m Match, d Str, f Str) := 0 <= m.Offset.Start && m.Offset.Start < m.Offset.End && m.Offset.End <= len(d) && m.Value == ssub(d, m.Offset.Start, m.Offset.End) && m.Filename == f
